@@ -215,8 +215,21 @@ BackendBreaks(i) ==          \* backend closes / resets / garbles after it was i
   /\ w' = [w EXCEPT ![i] = "upload"]
   /\ UNCHANGED <<pc, idOf, pending, ps, batch, agent, cur, seen, wreq, plook, inflight, delivered, calls, handed>>
 
+TransportRetry(i) ==         \* the backend closed a (reused keep-alive) connection before answering anything:
+  /\ w[i] = "backend" /\ faults < MaxFaults      \* net/http's transport sends an idempotent request again on a
+  /\ wreq[i] \in Victims                          \* fresh connection - same forwarding, no new ServeHTTP
+  /\ faults' = faults + 1
+  /\ hit' = hit \cup {wreq[i]}
+  /\ w' = [w EXCEPT ![i] = "retry"]
+  /\ UNCHANGED <<pc, idOf, pending, ps, batch, agent, cur, seen, wreq, wresp, plook, inflight, delivered, calls, handed>>
+
+Resend(i) ==                 \* ... and the backend is invoked again for the same request
+  /\ w[i] = "retry"
+  /\ w' = [w EXCEPT ![i] = "backend"]
+  /\ UNCHANGED <<pc, idOf, pending, ps, batch, agent, cur, seen, wreq, wresp, plook, inflight, delivered, calls, handed, faults, hit>>
+
 PostLookup(i) ==             \* the upload POST is issued as soon as the forwarder exists
-  /\ w[i] \in {"forward", "backend", "upload"}   \* (utils.go NewResponseForwarder); the proxy looks the
+  /\ w[i] \in {"forward", "backend", "retry", "upload"}   \* (utils.go NewResponseForwarder); the proxy looks the
   /\ plook[i] = None                              \* waiter up when the POST's head arrives
   /\ plook' = [plook EXCEPT ![i] = IF pending[i] = None THEN "nf" ELSE pending[i]]
   /\ UNCHANGED <<pc, idOf, pending, ps, batch, agent, cur, seen, w, wreq, wresp, inflight, delivered, calls, handed, faults, hit>>
@@ -258,7 +271,8 @@ Next ==
   \/ \E p \in Poller, r \in Req : Recv(p, r)
   \/ AgentDedupStep
   \/ \E i \in IdPool : WFetch(i) \/ WFetchFault(i) \/ WForward(i) \/ BackendDown(i)
-                       \/ BackendReply(i) \/ BackendBreaks(i) \/ PostLookup(i) \/ Handoff(i)
+                       \/ BackendReply(i) \/ BackendBreaks(i) \/ TransportRetry(i) \/ Resend(i)
+                       \/ PostLookup(i) \/ Handoff(i)
                        \/ PostOrphan(i) \/ PostFault(i)
 
 Fair ==
@@ -266,7 +280,7 @@ Fair ==
   /\ \A p \in Poller : WF_vars(ListStart(p)) /\ WF_vars(ListReply(p))
   /\ \A p \in Poller, r \in Req : SF_vars(Recv(p, r))
   /\ WF_vars(AgentDedupStep)
-  /\ \A i \in IdPool : WF_vars(WFetch(i)) /\ WF_vars(WForward(i)) /\ WF_vars(BackendReply(i))
+  /\ \A i \in IdPool : WF_vars(WFetch(i)) /\ WF_vars(WForward(i)) /\ WF_vars(BackendReply(i)) /\ WF_vars(Resend(i))
                        /\ WF_vars(PostLookup(i)) /\ WF_vars(Handoff(i))
 
 Spec == Init /\ [][Next]_vars /\ Fair
